@@ -141,7 +141,7 @@ STOP_OUTSIDE = ["real-time accuracy of poll", "fork-mode children", "negative ti
 
 
 def stop_job(mode, tier):
-    name = {0: "stop", 1: "destroy", 2: "wait"}[mode]
+    name = {0: "stop", 1: "destroy", 2: "wait", 3: "wait-fault-wait"}[mode]
     return Job("h_stop", variant=name, defines={"VP_MODE": mode, "VP_MAXEV": 1, "VP_NFD": 14,
                                                "VP_NOFD": 14},
                unwind=16, params={"nfd": 14, "retry": 2, "input_max": 0},
@@ -242,11 +242,14 @@ add("C18", lambda tier: [win_job(1, "argv-2x2", 2, 2), win_job(2, "env", 2, 2)] 
 # ------------------------------------------------------------------ stream contents
 
 
-def io_job(tier, errmode):
+def io_job(tier, errmode, F=None):
     R, S = (3, 3) if tier == "quick" else (4, 4)
-    return Job("h_io", variant="err%d-R%d-S%d" % (errmode, R, S),
-               defines={"VP_R": R, "VP_S": S, "VP_ERRMODE": errmode, "VP_IO": 1, "VP_MAXEV": S + 1,
-                        "VP_NFD": 16, "VP_NOFD": 16, "VP_LOG": 6},
+    d = {"VP_R": R, "VP_S": S, "VP_ERRMODE": errmode, "VP_IO": 1, "VP_MAXEV": S + 1,
+         "VP_NFD": 16, "VP_NOFD": 16, "VP_LOG": 6}
+    if F is not None:
+        d["VP_F"] = F
+    return Job("h_io", variant="err%d-R%d-S%d%s" % (errmode, R, S, "-F%d" % F if F is not None else ""),
+               defines=d,
                unwind=18, params={"nfd": 16, "retry": 2, "input_max": 0},
                cbmc_flags=["--slice-formula"], timeout=2400, solvers=("cadical", "kissat"),
                bounds={"parent_calls": R, "child_io_actions": S, "pipe_capacity_bytes": 2,
@@ -424,11 +427,12 @@ add("C19", lambda tier: [cxx_job(1, "options_from"), cxx_job(2, "clone"), cxx_jo
                          cxx_job(4, "methods", unwind=44), cxx_job(5, "containers", unwind=44), cxx_job(6, "enums", unwind=66)])
 
 
-def drain_job(tier, mode, errmode):
-    S = 3 if tier == "quick" else 4
-    return Job("h_drain", variant="%s-err%d-S%d" % ("drain" if mode == 0 else "run", errmode, S),
+def drain_job(tier, mode, errmode, S=None, F=None):
+    S = S if S is not None else (2 if tier == "quick" else 3)
+    F = F if F is not None else (0 if tier == "quick" else 1)
+    return Job("h_drain", variant="%s-err%d-S%d-F%d" % ("drain" if mode == 0 else "run", errmode, S, F),
                defines={"VP_MODE": mode, "VP_S": S, "VP_ERRMODE": errmode, "VP_IO": 1, "VP_MAXEV": S + 1,
-                        "VP_NFD": 16, "VP_NOFD": 16, "VP_LOG": 6},
+                        "VP_NFD": 16, "VP_NOFD": 16, "VP_LOG": 6, "VP_F": F},
                unwind=18, params={"nfd": 16, "retry": 3, "input_max": 0, "drain_iters": S + 4},
                cbmc_flags=["--slice-formula"], timeout=2400, solvers=("cadical", "kissat"),
                bounds={"child_io_actions": S, "sink_calls_logged": 8, "pipe_capacity_bytes": 2,
@@ -445,8 +449,8 @@ prop("C16", units=["reproc/src/drain.c (reproc_drain, sink_string, reproc_sink_s
          "H_sink_string: previous content NULL or <= 3 bytes, chunk <= 3 bytes, realloc may fail",
      ],
      outside=["reproc++/drain.hpp and run.hpp", "chunks larger than the 2-byte pipe model", "more than 8 sink calls"])
-add("C16", lambda tier: [unit_job(6, "sink_string"), drain_job(tier, 0, 1), drain_job(tier, 1, 1)] +
-    ([drain_job(tier, 0, 2), drain_job(tier, 0, 0)] if tier == "thorough" else []))
+add("C16", lambda tier: [unit_job(6, "sink_string"), drain_job(tier, 0, 1), drain_job(tier, 1, 0)] +
+    ([drain_job(tier, 0, 2), drain_job(tier, 0, 0), drain_job(tier, 1, 1)] if tier == "thorough" else []))
 
 
 def frame_job(foot):
@@ -490,3 +494,11 @@ prop("C17", units=["reproc/src/reproc.c (reproc_read, reproc_write, setup_input,
      ],
      outside=["pipe capacities other than the scaled one (only 'below / at / above capacity' is represented)"])
 add("C17", lambda tier: [io_job(tier, 0), io_job(tier, 1)] + start_jobs(tier, 0, types=(1,)))
+
+
+# ---- strengthening after the first mutation round (DESIGN 13)
+add("C01", lambda tier: [stop_job(3, tier)])
+add("C14", lambda tier: [stop_job(3, tier)])
+add("C02", lambda tier: [io_job(tier, 0, F=1)] + start_jobs(tier, 0, types=(1,)))
+add("C11", lambda tier: [static_job()])
+add("C20", lambda tier: start_jobs(tier, 1, F=0, types=(1,)))
